@@ -238,6 +238,7 @@ func c09Execute(variant string, s *c09Scn, stream []byte, bodies [][]byte, useSc
 	}
 	var run c09Run
 	var dec StreamDecoder
+	v0 := variant
 	if variant == "dec" {
 		dec = NewCodec(false).NewDecoder(rd)
 	}
@@ -245,16 +246,27 @@ func c09Execute(variant string, s *c09Scn, stream []byte, bodies [][]byte, useSc
 		var data []byte
 		var err error
 		t0 := time.Now()
-		if pipe {
+		if s.End == "stall" && variant != "dec" {
 			// watchdog: the call must return within the configured period (plus slack)
 			type res struct {
 				data []byte
 				err  error
 			}
 			ch := make(chan res, 1)
+			v := variant
 			go func() {
-				r := timeoutDelimitedReader{in: rd, source: "src", timeout: timeout, maxSize: s.Limit, readDone: make(chan struct{})}
-				d, e := r.readDelimitedMessageRaw()
+				if v == "raw" {
+					r := timeoutDelimitedReader{in: rd, source: "src", timeout: timeout, maxSize: s.Limit, readDone: make(chan struct{})}
+					d, e := r.readDelimitedMessageRaw()
+					ch <- res{d, e}
+					return
+				}
+				var msg conformancev1.ClientCompatResponse
+				e := ReadDelimitedMessage(rd, &msg, "src", timeout, s.Limit)
+				var d []byte
+				if e == nil {
+					d, e = proto.Marshal(&msg)
+				}
 				ch <- res{d, e}
 			}()
 			select {
@@ -267,12 +279,12 @@ func c09Execute(variant string, s *c09Scn, stream []byte, bodies [][]byte, useSc
 				run.ScriptOK = true
 				return run
 			}
+			variant = "watched"
 		}
 		switch variant {
+		case "watched":
+			variant = v0
 		case "raw":
-			if pipe {
-				break
-			}
 			r := timeoutDelimitedReader{in: rd, source: "src", timeout: timeout, maxSize: s.Limit, readDone: make(chan struct{})}
 			data, err = r.readDelimitedMessageRaw()
 		case "msg":
